@@ -4,5 +4,5 @@ CONSTANT NameSeq <- Seq2
 CONSTANT Shapes <- ShapesQ
 CONSTANT FlagsX <- FX3
 CONSTANT FlagsY <- FYq
-INVARIANT RefinesD
+INVARIANT Confluent
 CHECK_DEADLOCK FALSE
